@@ -302,10 +302,16 @@ class _SmartClientRequest:
             )
             trace.log_exception_quietly()
             encoder, response_handler = self._construct_protocol(protocol_version)
-            self._send_no_retry(encoder)
-            response_tuple = response_handler.read_response_tuple(
-                expect_body=self.expect_response_body
-            )
+            try:
+                self._send_no_retry(encoder)
+                response_tuple = response_handler.read_response_tuple(
+                    expect_body=self.expect_response_body
+                )
+            except ConnectionResetError:
+                # The retransmission failed as well.  Leave the medium usable
+                # for whatever the caller does next.
+                self.client._medium.reset()
+                raise
         return (response_tuple, response_handler)
 
     def _call_determining_protocol_version(self):
@@ -395,7 +401,13 @@ class _SmartClientRequest:
             trace.warning(f"ConnectionReset calling {self.method!r}, retrying")
             trace.log_exception_quietly()
             encoder, response_handler = self._construct_protocol(protocol_version)
-            self._send_no_retry(encoder)
+            try:
+                self._send_no_retry(encoder)
+            except ConnectionResetError:
+                # The retransmission failed as well.  Leave the medium usable
+                # for whatever the caller does next.
+                self.client._medium.reset()
+                raise
         return response_handler
 
     def _send_no_retry(self, encoder):
